@@ -10,6 +10,12 @@ the construct (on its own level, behind the enclosing one, at the end of the pro
 FindNode, EnterLocSymbol, pass loop), (C) `LocScope.expand` (every expansion / iteration has a label space of its own: the body's
 labels renamed per iteration) + `Scope.judge` on the real image.  Values are read back as data words through the Lean `pfile`
 reader, diagnostics by number from the -E file.
+
+(A) `Props/C13_Loc.lean` proves the agreement of the two for all programs (`C13_loc_refines`: every pass with a settled local table,
+i.e. every pass after the first; `C13_loc_refines_first_pass`: the first pass when no reference precedes the label of its own body).
+The driver evaluates both sides of these theorems on every generated program (`hyp= settled2= ref1= ref2= nofwd=`): a difference
+where the theorems' hypotheses hold is reported as a proof problem (the executable definitions are not the ones proved about),
+`distribution.local_label_spaces.refinement` counts on how many programs the hypotheses hold.
 """
 import os
 from concurrent.futures import ThreadPoolExecutor
@@ -467,7 +473,9 @@ def run(bdir, rng, thorough, spec_fail, corr_fail, proof_problems, dist):
         obss.append(obs)
         reqs.append(request(c, obs))
     answers = common.driver("c13l", reqs, timeout=1800)
-    d = dict(programs=len(cases), verdict={}, passes={}, not_accepted={}, references_checked=0, forward_local_refs=0, label_spaces=0, generator={})
+    d = dict(programs=len(cases), verdict={}, passes={}, not_accepted={}, references_checked=0, forward_local_refs=0, label_spaces=0, generator={},
+             refinement=dict(hypotheses_hold=0, second_pass_is_expansion=0, first_pass_is_expansion=0, first_pass_without_forward_refs=0,
+                             first_pass_differs_only_with_forward_refs=0))
     agg = d["generator"]
     samples = []
     for c, (st, errs, pb, src), obs, ans in zip(cases, reals, obss, answers):
@@ -481,6 +489,22 @@ def run(bdir, rng, thorough, spec_fail, corr_fail, proof_problems, dist):
             w = k.get("verdict") + ":" + k.get("vwhy", "-")
             d["not_accepted"][w] = d["not_accepted"].get(w, 0) + 1
         d["label_spaces"] += int(k.get("spaces", "0"))
+        # the two sides of C13_loc_refines / C13_loc_refines_first_pass evaluated on this program (the theorems say: never differ)
+        rf = d["refinement"]
+        if k.get("hyp") == "1":
+            rf["hypotheses_hold"] += 1
+            if k.get("settled2") == "1" and k.get("ref2") == "1":
+                rf["second_pass_is_expansion"] += 1
+            else:
+                proof_problems.append("C13_loc_refines contradicted by evaluation (settled2=%s ref2=%s): %s" % (k.get("settled2"), k.get("ref2"), c["tag"]))
+            if k.get("ref1") == "1":
+                rf["first_pass_is_expansion"] += 1
+            if k.get("nofwd") == "1":
+                rf["first_pass_without_forward_refs"] += 1
+                if k.get("ref1") != "1":
+                    proof_problems.append("C13_loc_refines_first_pass contradicted by evaluation: %s" % c["tag"])
+            elif k.get("ref1") != "1":
+                rf["first_pass_differs_only_with_forward_refs"] += 1
         d["forward_local_refs"] += int(k.get("locfwd", "0"))
         if k.get("verdict") == "accept" and k.get("spec") == "ok":
             d["references_checked"] += int(k.get("swords", "0"))
